@@ -50,6 +50,7 @@ type chanI interface {
 	strictlySendable() bool
 	prepare(self *Thread, op *Op, send bool)
 	Cap() int
+	isClosed() bool
 }
 
 // Op is the pending visible operation of a thread.
@@ -591,6 +592,14 @@ func (s *Sched) prepareOp(t *Thread, op *Op) {
 			op.ch.prepare(t, op, false)
 		}
 	case opSelect:
+		if op.hasDef && !PureBuf {
+			for _, c := range op.cases {
+				if c != nil && !isNilChan(c) && c.Cap() > 0 {
+					NeedPure = true
+					s.abort("restart:pure-buffer-model")
+				}
+			}
+		}
 		if op.hasDef {
 			for _, c := range op.cases {
 				if c != nil && !isNilChan(c) && c.Cap() == 0 {
